@@ -233,6 +233,8 @@ def _show(t):
     if h == "mut":
         parts = [_show(a) for a in t[3]] + [f"{k}={_show(v)}" for k, v in t[4]]
         return f"{_show(t[2])}.{t[1]}!({', '.join(parts)})"
+    if h == "mutf":
+        return f"{t[1]}!({_show(t[2])}, {', '.join(_show(a) for a in t[3])})"
     if h == "anyof":
         return "anyof(" + ", ".join(_show(x) for x in t[1]) + ")"
     return "<" + h + " " + ", ".join(_show(x) for x in t[1:]) + ">"
